@@ -1111,6 +1111,20 @@ theorem strip_update_exact (s : Props) (ks : List Key) (S : KV) (k : Key) :
   · simp only [hk, if_false, Prod.mk.injEq, decide_eq_false_iff_not] at hst
     simp [hk, hst.2.1, hst.2.2]
 
+/-! ### JSON -/
+
+theorem props_json_roundtrip (s : Props) : Props.ofJson s.toJson = s := by
+  cases s with
+  | mk m md dl => cases m <;> cases md <;> cases dl <;> rfl
+
+theorem ent_json_roundtrip (x : Ent) : x.jsonRoundTrip = x := by
+  cases x with
+  | mk p k a r att =>
+    show Ent.ofJson att (Ent.toJson _) = _
+    unfold Ent.ofJson Ent.toJson
+    simp only [props_json_roundtrip]
+    rfl
+
 /-! ### states and histories -/
 
 theorem get_put (st : St) (e : Bool) (x : Ent) (f : Bool) : (st.put e x).get f = if f = e then x else st.get f := by
@@ -1228,6 +1242,7 @@ theorem sinv_step {L : Loaded} {st : St} (h : SInv L st) (o : Op) : SInv L (st.s
   | nmerge e f => exact sinv_put h e (einv_merge (h e) (h f))
   | rmerge e f => exact sinv_put h e (einv_relMerge (h e) (h f))
   | strip e ks => exact sinv_put h e (einv_strip (h e) ks)
+  | json e => exact sinv_put h e (by rw [ent_json_roundtrip]; exact h e)
 
 theorem sinv_run {L : Loaded} {st : St} (h : SInv L st) (ops : List Op) : SInv L (st.run false ops) := by
   induction ops generalizing st with
@@ -1266,6 +1281,7 @@ theorem satt_step {st : St} (h : SAtt st) (old : Bool) (o : Op) (hs : o.isStrip 
     · show ((st.get e).attached || (st.get f).attached) = true; rw [h e, h f]; rfl
   | rmerge e f => exact satt_put h e (by show ((st.get e).attached || (st.get f).attached) = true; rw [h e, h f]; rfl)
   | strip e ks => simp [Op.isStrip] at hs
+  | json e => exact satt_put h e (by rw [ent_json_roundtrip]; exact h e)
 
 theorem eweak_mergeOld {L : Loaded} {s o : Ent} (hs : s.attached = true) (ho' : o.attached = true)
     (h : EWeak L s) (ho : EWeak L o) : EWeak L (Ent.mergeOld s o) := by
@@ -1332,6 +1348,7 @@ theorem sweak_step_old {L : Loaded} {st : St} (h : SWeak L st) (ha : SAtt st) (o
   | nmerge e f => exact sweak_put h e (eweak_mergeOld (ha e) (ha f) (h e) (h f))
   | rmerge e f => exact sweak_put h e (eweak_relMergeOld (ha e) (ha f) (h e) (h f))
   | strip e ks => simp [Op.isStrip] at hs
+  | json e => exact sweak_put h e (by rw [ent_json_roundtrip]; exact h e)
 
 theorem sweak_run_old {L : Loaded} {st : St} (h : SWeak L st) (ha : SAtt st) (ops : List Op)
     (hs : ∀ o, o ∈ ops → o.isStrip = false) : SWeak L (st.run true ops) := by
@@ -1366,6 +1383,7 @@ instance Op.decSafeAt (st : St) : (o : Op) → Decidable (o.SafeAt st)
   | .addKinds _ _ => isTrue trivial
   | .deleteKinds _ _ => isTrue trivial
   | .strip _ _ => isTrue trivial
+  | .json _ => isTrue trivial
 
 instance St.decSafeRun : (st : St) → (ops : List Op) → Decidable (st.SafeRun ops)
   | _, [] => isTrue trivial
@@ -1389,6 +1407,7 @@ theorem sinv_step_old {L : Loaded} {st : St} (h : SInv L st) (ha : SAtt st) (o :
   | nmerge e f => exact sinv_put h e ((einv_mergeOld_iff (ha e) (ha f) (h e) (h f)).2 hs)
   | rmerge e f => exact sinv_put h e ((einv_relMergeOld_iff (ha e) (ha f) (h e) (h f)).2 hs)
   | strip e ks => simp [Op.isStrip] at hst
+  | json e => exact sinv_put h e (by rw [ent_json_roundtrip]; exact h e)
 
 /-- … and the side condition is necessary: an unsafe merge breaks the invariant of its receiver -/
 theorem sinv_step_old_iff {L : Loaded} {st : St} (h : SInv L st) (ha : SAtt st) (o : Op) (hst : o.isStrip = false) :
@@ -1416,6 +1435,7 @@ theorem sinv_step_old_iff {L : Loaded} {st : St} (h : SInv L st) (ha : SAtt st) 
     | addKinds e ks => trivial
     | deleteKinds e ks => trivial
     | strip e ks => trivial
+    | json e => trivial
   · exact sinv_step_old h ha o hst
 
 theorem sinv_run_old {L : Loaded} {st : St} (h : SInv L st) (ha : SAtt st) (ops : List Op)
@@ -1447,6 +1467,7 @@ def Op.target : Op → Bool
   | .nmerge e _ => e
   | .rmerge e _ => e
   | .strip e _ => e
+  | .json e => e
 
 theorem step_frame (old : Bool) (st : St) (o : Op) (g : Bool) (hg : g ≠ o.target) :
     (st.step old o).get g = st.get g := by
